@@ -382,3 +382,37 @@ def step(clause):
             print('REPLAY: VIOLATION-CONFIRMED the bisected step does not cover [t, t + timestep]: it ends at t = %r instead of 1.0' % out['t'])
             return
     print('REPLAY: not reproduced')
+
+
+# ---- NormBased on a fixed grid of finite inputs (bounded stand-in; the recorded failures are a known finding)
+NB_MAGS = [1., -1., 3., 0., .5, 1e-30, 1e30, 1e-200, 1e200]
+
+
+def normbased_grid():
+    """The real NormBased.__call__ on every combination of NB_MAGS for one-entry vectors (res0, dres0, res1, dres1); prints
+    BOUNDED-RESULT {cases, failures: [{clause, at: [i0,i1,i2,i3], inputs, got}]}.  Clauses: only-SolverError-escapes,
+    rejected-step-has-scale-below-one, scale-within-minscale-maxscale."""
+    import json, io, contextlib
+    from nutils import solver
+    warnings.simplefilter('ignore')
+    nb = solver.NormBased()
+    fails, cases = [], 0
+    n = len(NB_MAGS)
+    with contextlib.redirect_stdout(io.StringIO()), contextlib.redirect_stderr(io.StringIO()):
+        for at in itertools.product(range(n), repeat=4):
+            vals = [NB_MAGS[i] for i in at]
+            vecs = [numpy.array([v]) for v in vals]
+            cases += 1
+            try:
+                scale, accept = nb(*vecs)
+            except solver.SolverError:
+                continue
+            except Exception as e:
+                fails.append(dict(clause='only-SolverError-escapes', at=list(at), inputs=vals, got=type(e).__name__))
+                continue
+            scale, accept = float(scale), bool(accept)
+            if not nb.minscale <= scale <= nb.maxscale:
+                fails.append(dict(clause='scale-within-minscale-maxscale', at=list(at), inputs=vals, got=[repr(scale), accept]))
+            if not accept and not scale < 1:
+                fails.append(dict(clause='rejected-step-has-scale-below-one', at=list(at), inputs=vals, got=[repr(scale), accept]))
+    print('BOUNDED-RESULT ' + json.dumps(dict(cases=cases, failures=fails)))
